@@ -24,11 +24,17 @@ def ob(name, entry, desc, nns=1, nreq=2, maxinf=2, attempts=1, tcp=False, extra=
 
 def obligations(tier):
     obs = []
-    obs.append(ob("cancel_2ns_2req_inf2", "harness_cancel", "cancel", nns=2, nreq=2, maxinf=2))
-    obs.append(ob("cancel_1ns_2req_inf1", "harness_cancel", "cancel", nns=1, nreq=2, maxinf=1))
-    obs.append(ob("timeout_att1", "harness_timeout", "timeout", nns=2, nreq=2, maxinf=2, attempts=1))
-    obs.append(ob("timeout_att2", "harness_timeout", "timeout", nns=2, nreq=2, maxinf=2, attempts=2))
-    obs.append(ob("reply_2ns", "harness_reply", "reply", nns=2, nreq=2, maxinf=2, attempts=2))
-    obs.append(ob("free_2req", "harness_free", "free", nns=2, nreq=2, maxinf=1))
+    # cancel: which request (J), twice, both
+    for (nns, maxinf, j, twice, both) in [(2, 2, 0, 0, 0), (2, 2, 1, 1, 0), (1, 1, 0, 0, 0), (1, 1, 1, 0, 0), (1, 1, 0, 1, 1), (2, 2, 1, 0, 1)]:
+        obs.append(ob("cancel_ns%d_inf%d_j%d_t%d_b%d" % (nns, maxinf, j, twice, both), "harness_cancel", "cancel", nns=nns, nreq=2, maxinf=maxinf,
+                      extra=["C34_J=%d" % j, "C34_TWICE=%d" % twice, "C34_BOTH=%d" % both]))
+    obs.append(ob("timeout_att1", "harness_timeout", "timeout", nns=2, nreq=2, maxinf=2, attempts=1, extra=["C34_J=0", "C34_J2=1"]))
+    obs.append(ob("timeout_att2", "harness_timeout", "timeout", nns=2, nreq=2, maxinf=2, attempts=2, extra=["C34_J=1", "C34_J2=1"]))
+    obs.append(ob("timeout_tcp_together", "harness_timeout_tcp", "tcp", nns=1, nreq=2, maxinf=2, attempts=2, tcp=True, extra=["C34_J=1", "C34_STAGGER=0"]))
+    obs.append(ob("timeout_tcp_stagger_kf", "harness_timeout_tcp", "tcp", nns=1, nreq=1, maxinf=2, attempts=2, tcp=True, extra=["C34_STAGGER=1"]))
+    for rc, tc, hr, ha in [(0, 0, 1, 1), (0, 0, 1, 0), (0, 0, 0, 0), (1, 0, 1, 0), (2, 0, 1, 0), (3, 0, 1, 0), (4, 0, 1, 0), (5, 0, 1, 0), (9, 0, 1, 0), (0, 1, 1, 1)]:
+        obs.append(ob("reply_rc%d_tc%d_r%d_a%d" % (rc, tc, hr, ha), "harness_reply", "reply", nns=2, nreq=2, maxinf=2, attempts=2,
+                      extra=["C34_J=0", "C34_RCODE=%d" % rc, "C34_TCBIT=%d" % tc, "C34_HAVE_REPLY=%d" % hr, "C34_HAVE_ANSWER=%d" % ha]))
+    obs.append(ob("free_fail", "harness_free", "free", nns=2, nreq=2, maxinf=1, extra=["C34_FAIL=1", "C34_CANCEL0=0"]))
     obs.append(ob("txid", "harness_txid", "txid", nns=1, nreq=2, maxinf=2))
     return obs
